@@ -331,6 +331,7 @@ pub fn max_depth_sessions() -> Vec<Session> {
         "8/8/8/8/4K3/8/8/R3k3 b - - 99 80",    // same, colours swapped
         "8/8/8/3k4/8/3KN3/8/8 b - - 0 1",      // king and minor v king
         "7k/5K2/8/6Q1/8/8/8/8 b - - 100 90",   // clock already at 100, one legal move
+        "4k3/8/8/p1p1p1p1/P1P1P1P1/8/8/4K3 w - - 0 1", // blocked pawn chains: kings only shuffle, every iteration completes
     ];
     // deep iterations on small but non-trivial trees (quiet cut-offs with a large remaining depth)
     let deep = [("8/8/8/4k3/8/8/4P3/4K3 w - - 0 1", 20u8), ("8/5p2/5k2/8/5K2/5P2/8/8 w - - 0 1", 22), ("8/8/p7/P7/1k6/8/1K6/8 b - - 0 1", 22)];
@@ -448,17 +449,19 @@ pub fn c04_c08(run: &Run, focus: Focus) -> (u64, u64) {
     run_sessions(run, focus, &sessions, &stats);
     total_sessions += sessions.len() as u64;
     run.family("CROSS", "ordered pairs of 6 roots sharing one table (a, b, a) and (a, ucinewgame, b) from generation 255", sessions.len() as u64, stats.searches.load(Ordering::Relaxed) - before, true, "");
+    {
+        let s = max_depth_sessions();
+        let before = stats.searches.load(Ordering::Relaxed);
+        run_sessions(run, focus, &s, &stats);
+        total_sessions += s.len() as u64;
+        run.family("MAX-DEPTH", "6 tiny-tree roots (bare kings, root in check with the clock at 99, king+minor, clock at 100, blocked pawn chains) x depth limit 254, 255 and none; 3 pawn endings to depth 20-22", s.len() as u64, stats.searches.load(Ordering::Relaxed) - before, true, "");
+    }
     if focus == Focus::C04 {
         let s = vec![generation_session()];
         let before = stats.searches.load(Ordering::Relaxed);
         run_sessions(run, focus, &s, &stats);
         total_sessions += 1;
         run.family("GENERATIONS", "300 consecutive searches on one persistent state", 1, stats.searches.load(Ordering::Relaxed) - before, true, "");
-        let s = max_depth_sessions();
-        let before = stats.searches.load(Ordering::Relaxed);
-        run_sessions(run, focus, &s, &stats);
-        total_sessions += s.len() as u64;
-        run.family("MAX-DEPTH", "5 tiny-tree roots (bare kings, root in check with the clock at 99, king+minor, clock at 100) x depth limit 254, 255 and none; 3 pawn endings to depth 20-22", s.len() as u64, stats.searches.load(Ordering::Relaxed) - before, true, "");
         let s = timed_no_depth_sessions();
         let before = stats.searches.load(Ordering::Relaxed);
         par_for(s.len(), |i| {
@@ -556,7 +559,9 @@ pub fn c09(run: &Run) -> (u64, u64) {
             // fresh table; afterwards the SAME search unperturbed on the same tables (it walks through the
             // positions the stopped search stood in), then a child position
             let again = if timed { Spec::depth(5) } else { spec.clone() };
-            sessions.push(Session { hash_mb: 1, start_gen: 0, steps: vec![Step::Search(g.clone(), spec.clone(), base_env(Some(k))), Step::Search(g.clone(), again, Env::Default), Step::Search(child.clone(), Spec::depth(4), Env::Default)] });
+            // (the table starts at generation 255: the stopped search is the one during which the counter reads 0,
+            // as it does for every 256th search of a long session; the pre-filled variant below runs at 1)
+            sessions.push(Session { hash_mb: 1, start_gen: 255, steps: vec![Step::Search(g.clone(), spec.clone(), base_env(Some(k))), Step::Search(g.clone(), again, Env::Default), Step::Search(child.clone(), Spec::depth(4), Env::Default)] });
             // table pre-filled by a previous complete search of the same position one ply shallower
             if let Some(d) = spec.depth {
                 sessions.push(Session { hash_mb: 1, start_gen: 255, steps: vec![Step::Search(g.clone(), Spec::depth(d - 1), Env::Default), Step::Search(g.clone(), spec.clone(), base_env(Some(k))), Step::Search(child.clone(), Spec::depth(4), Env::Default)] });
